@@ -50,6 +50,7 @@ type chain struct {
 	srv     *httptest.Server
 	rpcSrv  *rpc.Server
 	addr    ethcommon.Address
+	down    bool // the governance RPC is unreachable / answering with errors
 }
 
 type callArgs struct {
@@ -65,6 +66,9 @@ func (a *ethAPI) Call(ctx context.Context, args callArgs, block interface{}) (he
 	c := a.c
 	c.mu.Lock()
 	defer c.mu.Unlock()
+	if c.down {
+		return nil, errors.New("upstream connect error or disconnect/reset before headers (503)")
+	}
 	atomic.AddInt64(&c.calls, 1)
 	var data []byte
 	if args.Data != nil {
@@ -111,6 +115,11 @@ func newChain(sets [][]int, current int) *chain {
 	return c
 }
 func (c *chain) close() { c.rpcSrv.Stop(); c.srv.Close() }
+func (c *chain) setDown(d bool) {
+	c.mu.Lock()
+	c.down = d
+	c.mu.Unlock()
+}
 func (c *chain) setCurrent(n int) {
 	c.mu.Lock()
 	c.current = n
@@ -283,6 +292,16 @@ func gate(rng *rand.Rand, n int) {
 			}
 		}
 	}
+	// the governance RPC goes down: VAAs naming a set the explorer has not learnt yet (set 3; sets 0..2 are known by now)
+	// arrive signed by the newest known set - relabelled copies, or simply traffic right after a rotation. Without the set
+	// they name nothing can be verified: they must not be queued on the strength of another set's keys.
+	ch.setDown(true)
+	for _, count := range []string{"q", "all"} {
+		push(3, 2, count, "")
+		push(3, 1, count, "")
+	}
+	r.Count("pushes_while_rpc_down", 4)
+	ch.setDown(false)
 	// everything that reached the queue must verify against the set it names
 	for {
 		select {
@@ -773,5 +792,5 @@ func main() {
 	}
 	r.Assume("the core contract is a JSON-RPC stub answering eth_call for getCurrentGuardianSetIndex/getGuardianSet like the contract (zero value for unknown indices)",
 		"the explorer is built against the node module version its go.mod pins (as the real binary is)")
-	r.Finish("evaluations", "gate_cases", "(a) VAAs naming an old, the current, a not-yet-known and a nonexistent set, signed by q-1/q/all members of the named or of another set, with wrong / unordered / repeated signatures, for set sizes 1..19: whatever reaches the queue must verify against the set it names; (b) 8 goroutines doing Get(i)/Current()/Append over 24 sets, results checked against ground truth, histories checked with porcupine, -race; (b2) for each of 60 rotations eight goroutines released together append the same new set (six through the updater's append path, two through on-demand lookups), then every index must still answer with its own set; (c) push on a full queue, then invalid copies of the same message (under-signed, wrong signer, repeated signature, nonexistent set), then the retry; (d) a handed-over VAA whose dedupe entry (40 ms expiration via the deduplicator's own option) has lapsed, then invalid copies of the same body; distinct non-trivial = distinct gate case shapes", 20)
+	r.Finish("evaluations", "gate_cases", "(a) VAAs naming an old, the current, a not-yet-known and a nonexistent set, signed by q-1/q/all members of the named or of another set, with wrong / unordered / repeated signatures, for set sizes 1..19, also while the governance RPC answers with errors: whatever reaches the queue must verify against the set it names; (b) 8 goroutines doing Get(i)/Current()/Append over 24 sets, results checked against ground truth, histories checked with porcupine, -race; (b2) for each of 60 rotations eight goroutines released together append the same new set (six through the updater's append path, two through on-demand lookups), then every index must still answer with its own set; (c) push on a full queue, then invalid copies of the same message (under-signed, wrong signer, repeated signature, nonexistent set), then the retry; (d) a handed-over VAA whose dedupe entry (40 ms expiration via the deduplicator's own option) has lapsed, then invalid copies of the same body; distinct non-trivial = distinct gate case shapes", 20)
 }
